@@ -74,6 +74,7 @@ Definition do_call (fs : fsys) (c : sexp) : res outcome :=
   | 2%Z => format_from_strings no_fmt no_cw FUEL fs
              (d_list (fun b => (d_nat (d_nth b 0), d_list d_bentry (d_nth b 1))) (d_nth c 1)) (d_str (d_nth c 2))
              (o_cites (d_nth c 3)) (o_nat (d_nth c 4)) (d_Z (d_nth c 5))
+  | 4%Z => command_line no_fmt no_cw FUEL fs (d_str (d_nth c 1)) (o_str (d_nth c 2)) (o_nat (d_nth c 3)) (d_opt d_Z (d_nth c 4))
   | _ => format_from_file no_fmt no_cw FUEL fs (d_str (d_nth c 1)) (d_str (d_nth c 2))
              (o_cites (d_nth c 3)) (o_nat (d_nth c 4)) (d_Z (d_nth c 5))
   end.
